@@ -371,27 +371,27 @@ func genBech(g *core.Gen) {
 			for k := 0; k < g.N(2, 12); k++ {
 				d := r.Bytes(r.Intn(12))
 				for _, pad := range []string{"0", "1"} {
-					g.Case("cb-any", len(d) > 0, "C16 cb "+strconv.Itoa(f)+" "+strconv.Itoa(t)+" "+pad+" "+hx(d))
+					gc(g, "cb-any", len(d) > 0, "C16 cb "+strconv.Itoa(f)+" "+strconv.Itoa(t)+" "+pad+" "+hx(d))
 				}
 			}
 		}
 	}
 	for n := 0; n <= 70; n++ {
 		d := r.Bytes(n)
-		g.Case("cb-8to5", n > 0, "C16 cb 8 5 1 "+hx(d))
-		g.Case("cb-8to5", n > 0, "C16 cb 8 5 0 "+hx(d))
+		gc(g, "cb-8to5", n > 0, "C16 cb 8 5 1 "+hx(d))
+		gc(g, "cb-8to5", n > 0, "C16 cb 8 5 0 "+hx(d))
 		c, _ := bech32.ConvertBits(d, 8, 5, true)
-		g.Case("cb-5to8", n > 0, "C16 cb 5 8 0 "+hx(c))
-		g.Case("cb-5to8", n > 0, "C16 cb 5 8 1 "+hx(c))
+		gc(g, "cb-5to8", n > 0, "C16 cb 5 8 0 "+hx(c))
+		gc(g, "cb-5to8", n > 0, "C16 cb 5 8 1 "+hx(c))
 		if len(c) > 0 { // non-zero padding bits, or a spare group
 			c2 := append([]byte{}, c...)
 			c2[len(c2)-1] |= 1
-			g.Case("cb-5to8-badpad", true, "C16 cb 5 8 0 "+hx(c2))
-			g.Case("cb-5to8-badpad", true, "C16 cb 5 8 0 "+hx(append(c2, 0)))
-			g.Case("cb-5to8-badpad", true, "C16 cb 5 8 0 "+hx(append(append([]byte{}, c...), 0)))
+			gc(g, "cb-5to8-badpad", true, "C16 cb 5 8 0 "+hx(c2))
+			gc(g, "cb-5to8-badpad", true, "C16 cb 5 8 0 "+hx(append(c2, 0)))
+			gc(g, "cb-5to8-badpad", true, "C16 cb 5 8 0 "+hx(append(append([]byte{}, c...), 0)))
 		}
 		x := rand5(r, n)
-		g.Case("cb-5to8-rand", n > 0, "C16 cb 5 8 0 "+hx(x))
+		gc(g, "cb-5to8-rand", n > 0, "C16 cb 5 8 0 "+hx(x))
 	}
 	// bech32 encode / decode
 	for k := 0; k < g.N(400, 6000); k++ {
@@ -409,7 +409,7 @@ func genBech(g *core.Gen) {
 		if r.Chance(1, 8) {
 			h = strings.ToUpper(hrp)
 		}
-		g.Case("benc", true, "C16 benc "+ver+" "+hx([]byte(h))+" "+hx(d))
+		gc(g, "benc", true, "C16 benc "+ver+" "+hx([]byte(h))+" "+hx(d))
 		var s string
 		var err error
 		if ver == "m" {
@@ -420,8 +420,8 @@ func genBech(g *core.Gen) {
 		if err != nil {
 			continue
 		}
-		g.Case("bdec-valid", true, "C16 bdec "+hx([]byte(s)))
-		g.Case("bdec-upper", true, "C16 bdec "+hx(upper([]byte(s))))
+		gc(g, "bdec-valid", true, "C16 bdec "+hx([]byte(s)))
+		gc(g, "bdec-upper", true, "C16 bdec "+hx(upper([]byte(s))))
 		m := []byte(s)
 		if len(m) > 0 { // mixed case: upper-case one letter
 			for tries := 0; tries < 20; tries++ {
@@ -431,17 +431,17 @@ func genBech(g *core.Gen) {
 					break
 				}
 			}
-			g.Case("bdec-mixed", true, "C16 bdec "+hx(m))
+			gc(g, "bdec-mixed", true, "C16 bdec "+hx(m))
 		}
-		g.Case("bdec-mut", true, "C16 bdec "+hx(mutate(r, []byte(s), 1+r.Intn(4), bechCharset+"1b")))
+		gc(g, "bdec-mut", true, "C16 bdec "+hx(mutate(r, []byte(s), 1+r.Intn(4), bechCharset+"1b")))
 		if r.Chance(1, 10) {
 			t := []byte(s)
 			t[r.Intn(len(t))] = byte(r.Intn(256))
-			g.Case("bdec-anybyte", true, "C16 bdec "+hx(t))
+			gc(g, "bdec-anybyte", true, "C16 bdec "+hx(t))
 		}
 	}
 	for _, s := range []string{"", "1", "a1", "1qqqqqq", "a1qqqqqq", "11qqqqqq", "a1qqqqq", "a12uel5l", "A12UEL5L", "a1lqfn3a", "abcdef1qpzry9x8gf2tvdw0s3jn54khce6mua7lmqqqxw"} {
-		g.Case("bdec-fixed", true, "C16 bdec "+hx([]byte(s)))
+		gc(g, "bdec-fixed", true, "C16 bdec "+hx([]byte(s)))
 	}
 }
 
@@ -457,14 +457,14 @@ func genAddr(g *core.Gen) {
 					if k == 0 && l > 0 {
 						p = make([]byte, l) // all zero: leading '1's in base58
 					}
-					g.Case("enc-"+kind, l == 20 || l == 32, "C16 enc "+kind+" "+n.name+" "+hx(p))
+					gc(g, "enc-"+kind, l == 20 || l == 32, "C16 enc "+kind+" "+n.name+" "+hx(p))
 				}
 			}
 		}
-		g.Case("enc-p2a", true, "C16 enc p2a "+n.name+" -")
+		gc(g, "enc-p2a", true, "C16 enc p2a "+n.name+" -")
 		for k := 0; k < g.N(3, 30); k++ {
 			for _, pk := range pubKeys(r) {
-				g.Case("enc-pk", true, "C16 enc pk "+n.name+" "+hx(pk))
+				gc(g, "enc-pk", true, "C16 enc pk "+n.name+" "+hx(pk))
 				bad := append([]byte{}, pk...)
 				switch r.Intn(4) {
 				case 0:
@@ -476,14 +476,14 @@ func genAddr(g *core.Gen) {
 				case 3:
 					bad[0] = byte(r.Intn(256))
 				}
-				g.Case("enc-pk-bad", true, "C16 enc pk "+n.name+" "+hx(bad))
+				gc(g, "enc-pk-bad", true, "C16 enc pk "+n.name+" "+hx(bad))
 				// as DecodeAddress input: hex string in either case
 				hs := hex.EncodeToString(pk)
 				if r.Bool() {
 					hs = strings.ToUpper(hs)
 				}
-				g.Case("dec-pkhex", true, "C16 dec "+n.name+" "+hx([]byte(hs)))
-				g.Case("dec-pkhex-bad", true, "C16 dec "+n.name+" "+hx([]byte(hex.EncodeToString(bad))))
+				gc(g, "dec-pkhex", true, "C16 dec "+n.name+" "+hx([]byte(hs)))
+				gc(g, "dec-pkhex-bad", true, "C16 dec "+n.name+" "+hx([]byte(hex.EncodeToString(bad))))
 			}
 		}
 	}
@@ -503,12 +503,12 @@ func genAddr(g *core.Gen) {
 					}
 					s := segwitString(r, hrp, byte(ver), prog, m)
 					net := ns[r.Intn(len(ns))]
-					g.Case("dec-segwit", true, "C16 dec "+net.name+" "+hx(s))
+					gc(g, "dec-segwit", true, "C16 dec "+net.name+" "+hx(s))
 					if r.Chance(1, 3) {
-						g.Case("dec-segwit-upper", true, "C16 dec "+net.name+" "+hx(upper(s)))
+						gc(g, "dec-segwit-upper", true, "C16 dec "+net.name+" "+hx(upper(s)))
 					}
 					if r.Chance(1, 3) {
-						g.Case("dec-segwit-mut", true, "C16 dec "+net.name+" "+hx(mutate(r, s, 1+r.Intn(4), bechCharset+"1b")))
+						gc(g, "dec-segwit-mut", true, "C16 dec "+net.name+" "+hx(mutate(r, s, 1+r.Intn(4), bechCharset+"1b")))
 					}
 				}
 			}
@@ -524,11 +524,11 @@ func genAddr(g *core.Gen) {
 			}
 			str := []byte(ad.String())
 			other := ns[r.Intn(len(ns))]
-			g.Case("dec-valid-upper", true, "C16 dec "+other.name+" "+hx(upper(str)))
-			g.Case("dec-valid-lower", true, "C16 dec "+other.name+" "+hx(str))
+			gc(g, "dec-valid-upper", true, "C16 dec "+other.name+" "+hx(upper(str)))
+			gc(g, "dec-valid-lower", true, "C16 dec "+other.name+" "+hx(str))
 			mixed := append([]byte{}, str...)
 			mixed[0] -= 32
-			g.Case("dec-valid-mixed", true, "C16 dec "+other.name+" "+hx(mixed))
+			gc(g, "dec-valid-mixed", true, "C16 dec "+other.name+" "+hx(mixed))
 		}
 	}
 	// pay-to-anchor look-alikes: v1 two-byte programs next to 4e73, and 4e73 under other versions / variants
@@ -536,7 +536,7 @@ func genAddr(g *core.Gen) {
 		for ver := 0; ver <= 2; ver++ {
 			for _, m := range []bool{false, true} {
 				hrp := []string{"bc", "tb", "bcrt", "sb", "vn"}[r.Intn(5)]
-				g.Case("dec-p2a-near", true, "C16 dec "+ns[r.Intn(len(ns))].name+" "+hx(segwitString(r, hrp, byte(ver), prog, m)))
+				gc(g, "dec-p2a-near", true, "C16 dec "+ns[r.Intn(len(ns))].name+" "+hx(segwitString(r, hrp, byte(ver), prog, m)))
 			}
 		}
 	}
@@ -561,7 +561,7 @@ func genAddr(g *core.Gen) {
 		} else {
 			s, _ = bech32.EncodeM(hrp, data)
 		}
-		g.Case("dec-segwit-pad", true, "C16 dec "+ns[r.Intn(len(ns))].name+" "+hx([]byte(s)))
+		gc(g, "dec-segwit-pad", true, "C16 dec "+ns[r.Intn(len(ns))].name+" "+hx([]byte(s)))
 	}
 	// base58 addresses: every netID byte against every default net; wrong lengths; edit distance 1..4
 	for id := 0; id < 256; id++ {
@@ -570,7 +570,7 @@ func genAddr(g *core.Gen) {
 		for _, n := range ns {
 			relevant := byte(id) == n.p.PubKeyHashAddrID || byte(id) == n.p.ScriptHashAddrID
 			if relevant || r.Chance(1, 6) {
-				g.Case("dec-b58-netid", relevant, "C16 dec "+n.name+" "+hx(s))
+				gc(g, "dec-b58-netid", relevant, "C16 dec "+n.name+" "+hx(s))
 			}
 		}
 	}
@@ -586,13 +586,13 @@ func genAddr(g *core.Gen) {
 			h[0] = 0
 		}
 		s := []byte(base58.CheckEncode(h, id))
-		g.Case("dec-b58", l == 20, "C16 dec "+n.name+" "+hx(s))
-		g.Case("dec-b58-mut", true, "C16 dec "+n.name+" "+hx(mutate(r, s, 1+r.Intn(4), b58alpha)))
+		gc(g, "dec-b58", l == 20, "C16 dec "+n.name+" "+hx(s))
+		gc(g, "dec-b58-mut", true, "C16 dec "+n.name+" "+hx(mutate(r, s, 1+r.Intn(4), b58alpha)))
 		other := ns[r.Intn(len(ns))]
-		g.Case("dec-b58-othernet", true, "C16 dec "+other.name+" "+hx(s))
+		gc(g, "dec-b58-othernet", true, "C16 dec "+other.name+" "+hx(s))
 	}
 	for _, s := range []string{"", "1", "bc1", "tb1", "bc1q", "1111111111111111111114oLvT2", "3", strings.Repeat("0", 66), strings.Repeat("g", 66), strings.Repeat("1", 130)} {
-		g.Case("dec-fixed", true, "C16 dec mainnet "+hx([]byte(s)))
+		gc(g, "dec-fixed", true, "C16 dec mainnet "+hx([]byte(s)))
 	}
 }
 
@@ -664,9 +664,9 @@ func genScripts(g *core.Gen) {
 	for k := 0; k < g.N(1200, 20000); k++ {
 		s := tmpl()
 		n := ns[r.Intn(len(ns))]
-		g.Case("xtr-template", true, "C16 xtr "+n.name+" "+hx(s))
+		gc(g, "xtr-template", true, "C16 xtr "+n.name+" "+hx(s))
 		if r.Chance(1, 2) {
-			g.Case("pks", true, "C16 pks "+n.name+" "+hx(s))
+			gc(g, "pks", true, "C16 pks "+n.name+" "+hx(s))
 		}
 		if r.Chance(1, 2) { // near misses: flip / truncate / extend
 			t := append([]byte{}, s...)
@@ -682,7 +682,7 @@ func genScripts(g *core.Gen) {
 			case 2:
 				t = append(t, byte(r.Intn(256)))
 			}
-			g.Case("xtr-nearmiss", len(t) > 0, "C16 xtr "+n.name+" "+hx(t))
+			gc(g, "xtr-nearmiss", len(t) > 0, "C16 xtr "+n.name+" "+hx(t))
 		}
 	}
 }
@@ -692,4 +692,5 @@ func genMore(g *core.Gen) {
 	genAddr(g)
 	genScripts(g)
 	genKeys(g)
+	genHard(g)
 }
